@@ -37,6 +37,14 @@ fn main() {
             })
         };
         let out = run_threads(&sc, watchdog, on_deadlock);
+        // "preserves all the guarantees above": whatever oracle fires under real concurrency decides C20
+        let mut out = out;
+        for v in out.violations.iter_mut() {
+            if v.prop != "C20" {
+                v.rule = format!("{}:{}", v.prop, v.rule);
+                v.prop = "C20";
+            }
+        }
         let nt = out.stats.get("nontrivial") > 0;
         if verbose || a.get("replay").is_some() {
             eprintln!("seed {}: {} violations={} inconclusive={:?}", seed, desc, out.violations.len(), out.inconclusive);
